@@ -125,16 +125,39 @@ def install_externals(reg):
             return [(p, z3.IntVal(len(v.items)))]
         if z3.is_expr(v) and v.sort() == S:
             return [(p, z3.Length(v))]
+        if z3.is_expr(v) and v.sort() == Val:
+            r = z3.Function("len_of", Val, I)(v)      # an opaque container: an unknown non-negative length
+            p.facts.append(r >= 0)
+            return [(p, r)]
         raise OutOfSubset("len of %r" % (v,))
     E["builtins.len"] = b_len
+
+    def b_iter(ex, p, pos, kw, node):
+        if len(pos) == 1 and z3.is_expr(pos[0]) and pos[0].sort() == Val:
+            v = pos[0]
+            if z3.is_app(v) and v.decl().name() == "list_of" and v.num_args() == 1:
+                return [(p, v.arg(0))]        # iter(list(stream)) yields the items of the stream: the same token stream for a consumer
+            return [(p, z3.Function("iter_of", Val, Val)(v))]
+        raise OutOfSubset("iter() of %r" % (pos,))
+    E["builtins.iter"] = b_iter
 
     def b_int(ex, p, pos, kw, node):
         v = pos[0]
         if z3.is_expr(v) and v.sort() == S:
+            if len(pos) == 2 and z3.is_int_value(z3.simplify(pos[1])) and z3.simplify(pos[1]).as_long() == 10:
+                pos = pos[:1]        # int(s, 10) is int(s)
             if len(pos) == 2:
                 base = z3.simplify(pos[1])
                 if not (z3.is_int_value(base) and base.as_long() == 16):
-                    raise OutOfSubset("int(s, base) with base != 16")
+                    # another radix: an uninterpreted value (related to int(s) by nothing) that may raise ValueError
+                    b = to_val(pos[1])
+                    pbad, pok = ex.split(p, z3.Function("int_base_raises", S, Val, B)(v, b))
+                    res = []
+                    if pbad is not None:
+                        res.append((pbad, Raise("ValueError", "int(s, base) of a malformed string, line %d" % node.lineno)))
+                    if pok is not None:
+                        res.append((pok, z3.Function("int_in_base", S, Val, I)(v, b)))
+                    return res
                 ok = z3.InRe(v, z3.Plus(HEXD_ANY))
                 pok, pbad = ex.split(p, ok)
                 res = []
@@ -202,6 +225,8 @@ def install_externals(reg):
         v = pos[0]
         if isinstance(v, PyList):
             return [(p, PyList(v.arr, v.n, v.sort, origin="fresh"))]
+        if z3.is_expr(v) and v.sort() == Val:
+            return [(p, z3.Function("list_of", Val, Val)(v))]     # the items of an opaque iterable, as an opaque list
         raise OutOfSubset("list() of %r" % (v,))
     E["builtins.list"] = b_list
 
@@ -240,6 +265,22 @@ def install_externals(reg):
         # with a default the call is total; the attribute (if present) wins
         return [(p, ex.load_attr(p, obj, attr))]
     E["builtins.getattr"] = b_getattr
+
+    def b_isinstance(ex, p, pos, kw, node):
+        if len(pos) != 2:
+            raise OutOfSubset("isinstance arity")
+        v, t = pos
+        names = [x.q for x in (t.items if isinstance(t, PyTuple) else [t]) if isinstance(x, QName)]
+        if z3.is_expr(v) and len(names) == len(t.items if isinstance(t, PyTuple) else [t]):
+            srt = str(v.sort())
+            exact = {"String": "builtins.str", "Bool": "builtins.bool"}.get(srt)
+            if exact is not None:
+                return [(p, z3.BoolVal(exact in names or (srt == "Bool" and "builtins.int" in names)))]
+            # numbers: A-real does not keep int apart from float inside lists, so the dynamic type is an uninterpreted flag
+            tv = z3.Const("types:" + ",".join(sorted(names)), Val)
+            return [(p, z3.Function("isinstance", Val, Val, B)(to_val(v), tv))]
+        raise OutOfSubset("isinstance of %r" % (v,))
+    E["builtins.isinstance"] = b_isinstance
 
     def b_globals(ex, p, pos, kw, node):
         p.effects.append(("global-object-read", "globals()", node.lineno))
